@@ -528,6 +528,11 @@ func init() {
 			}
 			nReal := tierN(c.Tier, 700, 14000)
 			if c.Idx >= nReal {
+				if c.Idx%24 == 10 {
+					// the delay is the only delay: a slow data store (save in progress) does not hold back a job whose delay
+					// has passed, nor the requests of a burst
+					return simpleCase(c, drv.RunSlowStoreCase(int64(c.Idx/24)), 5)
+				}
 				if c.Idx%12 == 4 {
 					// a start delay works on a restarted runner as on a fresh one, whatever the store held (interrupted jobs
 					// occupy nothing)
